@@ -79,6 +79,15 @@ PLAN["C10"] = {
     "components": {"real": ["fw/face NDNLPLinkService send path (sendPacket: MTU budgeting, fragmentation, LP encoding)", "fw/face NDNLPLinkService receive path (handleIncomingFrame, reassemblePacket, dispatch)", "std/ndn/spec_2022 LpPacket codec"], "stub": ["transport (SimTransport: frames handed to the scenario's link schedule)", "forwarding threads behind the receiver (recording dispatch.FWThread)"]},
     "assumptions": ["PIT tokens are at most 32 bytes (NDNLPv2)", "the receiver is a non-local face (local faces fan Data out to several threads by design)"],
 }
+PLAN["C04"] = {
+    "parts": [{"engine": "rxsim", "quick": 6000, "thorough": 600000}],
+    "nontrivial": ">=1 corrupted frame was put on the link and >=1 frame of the run decoded past its outer type-length",
+    "fault_note": "link corruption fault over valid traffic (bare and LP-wrapped Interests/Data, Nacks, idle frames, real fragments): every TLV length replaced by boundary/huge values (with and without patching the enclosing lengths), truncation, bit flips, type confusion, inserted bytes, fragment index/count/sequence rewrites, PIT tokens naming thread count-1/count/65535, random frames; optionally delivered through the stream framing loop under arbitrary chunking",
+    "components": {"real": ["fw/face readTlvStream", "fw/face NDNLPLinkService.handleIncomingFrame + reassembly + dispatchInterest/dispatchData", "fw/dispatch GetFWThread", "fw/fw Thread.Run (1..32 threads) with PIT/CS/FIB behind it", "std/engine/basic Engine.onPacket (same frames, contiguous and 2-/3-segment readers)", "std/ndn/spec_2022 decoders (Interest, Data, LpPacket)", "std/encoding readers"], "stub": ["transport (SimTransport)", "upstream face (sink)"]},
+    "assumptions": ["decided for the forwarder's and the application engine's receive paths and the decoders they reach; mgmt_2022, dv/tlv, rdr_2024 decoders are reached by the corruption faults of mgmtsim/dvsim/objsim; svs_2024, ndncert_0_3, schema/demosec and the generator's test models are not reached by any simulated component and are NOT decided (see DESIGN.md 6.C04)",
+                    "allocation bound per frame: 1 MiB + 64 x frame length (forwarder), 4x that for the engine's three passes"],
+    "level_text": "Seeded search over corrupted traffic delivered to the real receive paths in a deterministic simulation; invariants per frame: no panic, bounded allocation, bounded steps, no state change on undecodable frames. Samples the byte-sequence space through structure-aware mutation; not a proof, and scoped to decoders a simulated component reaches.",
+}
 
 NOT_APPLICABLE = [
     {"property_id": "C03", "reason": "encode->decode round trip is a pure function of the packet value and a byte segmentation: no schedule, clock, fault or shared state for a simulator to own"},
@@ -88,6 +97,7 @@ NOT_APPLICABLE = [
 ]
 
 ENGINES = [
+    {"name": "rxsim", "path": "sim/facesim/rx.go", "serves_properties": ["C04"], "kind_free_text": "hostile link (structure-aware corruption) in front of the real forwarder receive path (link service, reassembly, dispatch, forwarding threads) and the application engine"},
     {"name": "linksim", "path": "sim/facesim/link.go", "serves_properties": ["C10"], "kind_free_text": "two real link services joined by a simulated datagram link that permutes, drops and duplicates frames"},
     {"name": "streamsim", "path": "sim/facesim/stream.go", "serves_properties": ["C11"], "kind_free_text": "scripted stream socket (chunking, transient errors, EOF) under the real stream framing loops"},
     {"name": "enginesim", "path": "sim/enginesim", "serves_properties": ["C20"], "kind_free_text": "real application engine on a simulated face and a simulated timer (event heap); scenario-chosen interleaving of arrivals and timer firings"},
